@@ -44,7 +44,65 @@ func genStatus(p *pkgInfo) string {
 			}
 		}
 	}
+	// helpers whose stores are spliced into the run of every caller (locks.go statusSpliceable): a call of one, standing as
+	// a statement, executes all its stores then and there, with the caller's arguments in place of its parameters
+	simpleName := func(full string) string {
+		if i := strings.LastIndex(full, "."); i >= 0 {
+			return full[i+1:]
+		}
+		return full
+	}
+	spliced := map[string]bool{}   // helper -> some call was spliced
+	keepOwn := map[string]bool{}   // helper -> it is also reached in a way that is not spliced (deferred, go, exported)
+	for _, c := range la.calls {
+		if statusSpliceable[simpleName(c.callee)] && strings.HasPrefix(c.callee, "kvElection.") {
+			if c.plain {
+				spliced[c.callee] = true
+			} else {
+				keepOwn[c.callee] = true
+			}
+		}
+	}
+	for h := range spliced {
+		if la.roots[h] || ast.IsExported(simpleName(h)) {
+			keepOwn[h] = true
+		}
+	}
+	var atomics []atomicRec
 	for _, a := range la.atomics {
+		if spliced[a.fn] && !keepOwn[a.fn] && a.op != "Load" && statusFields[a.field] {
+			continue // listed with every caller instead
+		}
+		atomics = append(atomics, a)
+	}
+	for _, c := range la.calls {
+		if !c.plain || !spliced[c.callee] {
+			continue
+		}
+		fd := p.funcs[c.callee]
+		var params []string
+		if fd.Type.Params != nil {
+			for _, prm := range fd.Type.Params.List {
+				for _, nm := range prm.Names {
+					params = append(params, nm.Name)
+				}
+			}
+		}
+		for _, a := range la.atomics {
+			if a.fn != c.callee || a.op == "Load" || !statusFields[a.field] {
+				continue
+			}
+			b := a
+			b.fn, b.held, b.blk, b.run, b.sect, b.guard, b.pos = c.caller, c.held, c.blk, c.run, c.sect, c.guard, c.pos
+			for i, prm := range params {
+				if a.arg == prm && i < len(c.args) {
+					b.arg = c.args[i]
+				}
+			}
+			atomics = append(atomics, b)
+		}
+	}
+	for _, a := range atomics {
 		if !statusFields[a.field] {
 			continue
 		}
